@@ -50,6 +50,12 @@ def run(ctx):
         ctx.cov['distinct_nontrivial'] += sum(1 for l in lines if l.startswith('Z '))
         if len(ctx.cov['samples']) < 3: ctx.cov['samples'].append({'config': c, 'ops': lines[1:6]})
     ctx.cov['input_distribution']['lfht_seq'] = {'configurations': len(confs), 'op_lines': dist}
+    # flags = CDS_LFHT_AUTO_RESIZE: one user thread under the controlled scheduler, the library's work-queue thread scheduled between its operations
+    # (results against the multiset specification, final state, bucket count within [1, max] for every allocator)
+    import lfhtx_common as X
+    ximpl = X.build(ctx)
+    if ximpl: X.run_cases(ctx, 'sequential operations on an auto-resizing table (work-queue thread scheduled between operations)', ximpl, X.auto_resize_bound_cases(ctx),
+                          nontrivial=lambda raw: ' alloc tb' in raw)
     return finish(ctx, trusted=TRUSTED, rule='PRNG operation sequences (add / add_unique / add_replace / replace / del / lookup + duplicate walk / traversal / count / resize to 0, 1, powers and non powers of two, ~0 / destroy) on 48 nodes with 16 keys over 8 '
                   'hashes (0, 1, 2, 3, 5, 8, 2^63, 2^64-1: small hashes equal to future bucket indices, high-bit-only differences); allocators order / chunk / mmap / default x initial size, minimum, maximum (incl. invalid ones) x flags; '
                   'evaluations = output lines; distinct_nontrivial = resizes')
